@@ -1,0 +1,36 @@
+//go:build verif
+// +build verif
+
+package utility
+
+import (
+	"sync/atomic"
+	"time"
+)
+
+// Simulated clock (verification builds only). GetTime never performs NTP under
+// this tag; it returns SimClock() when set, else a fixed epoch plus a counter-free
+// offset held in simNowNanos.
+
+var (
+	// SimClock, when non-nil, supplies every GetTime() result.
+	SimClock func() time.Time
+
+	simNowNanos int64 = 1700000000 * int64(time.Second)
+)
+
+func simTime() (time.Time, bool) {
+	if f := SimClock; f != nil {
+		return f(), true
+	}
+	return time.Unix(0, atomic.LoadInt64(&simNowNanos)).In(cstZone), true
+}
+
+// SimSetNow sets the default simulated time (unix nanoseconds).
+func SimSetNow(nanos int64) { atomic.StoreInt64(&simNowNanos, nanos) }
+
+// SimAdvance moves the default simulated time by d (may be negative).
+func SimAdvance(d time.Duration) { atomic.AddInt64(&simNowNanos, int64(d)) }
+
+// SimZone returns the zone GetTime reports in.
+func SimZone() *time.Location { return cstZone }
